@@ -1157,6 +1157,15 @@ def fam_errors(g, prefix, n_random):
             add([["sub", g.combine_named(c, g.cold(items[:pos] + [e_(5)]), [g.cold([n_(7), n_(8), C_])]), NOREACT]])
             g.tag = 0
             add([["sub", g.combine_named(c, g.cold([n_(7), n_(8), C_]), [g.cold(items[:pos] + [e_(6)])]), NOREACT]])
+    # an attempt that fails AFTER its subscribe call returned (a hot input wins amb and fails later); the next attempt ends INSIDE
+    # its subscribe call (the hot input is dead by then, the flaky input answers synchronously)
+    for op in (["retry", "2"], ["retry", "3"], ["retry", "0"], ["retry_when", "tt"], ["retry_when", ["eq", "5"]], ["on_error_resume_next", "rs_same"]):
+        for second in ([n_(2), C_], [C_], [n_(2), n_(3), C_], [n_(2), e_(6)]):
+            if second[-1] != C_ and op in (["retry", "0"], ["retry_when", "tt"]):
+                continue      # would retry for ever
+            for pre in ([["hnext", "a", "1"]], []):
+                add([["counter", "k"], ["subject", "a", "plain"], ["sub", op + [["amb", ["ref", "a"], ["flaky", "0", "k", [], second]]], NOREACT]] + pre +
+                    [["herror", "a", "5"], ["hnext", "a", "7"]])
     # payloads of other TYPES than the harness's own struct (C04: downcast_ref to the ORIGINAL type): 1000.. an RxError wrapping
     # it (a nested error), 2000.. a String, 3000.. an i64 - through every operator, creation function and recovery operator
     for pid in (1005, 2005, 3005):
